@@ -25,7 +25,13 @@ CLASSES = {
     'Data': dict(module='field', bases=['Field'], attrs={
         'byte_count': 'dyn', 'until_marker': 'dyn', 'include_delimiter': 'bool',
         'delimiter_to_be_included': 'bytes', 'consume_delimiter': 'bool',
-        '_search_buffer_length': 'dyn'}),
+        '_search_buffer_length': 'dyn', 'unpack': 'meth'},
+        methsel={'unpack': ['field:Data._unpack_fixed_size', 'field:Data._unpack_variable_size_field',
+                            'field:Data._unpack_variable_size_callable', 'field:Data._unpack_with_string_marker',
+                            'field:Data._unpack_with_regexp_marker']}),
+    'UnaryExpr': dict(module='deferred', bases=[], attrs={}),
+    'BinaryExpr': dict(module='deferred', bases=[], attrs={}),
+    'NaryExpr': dict(module='deferred', bases=[], attrs={}),
     'Bits': dict(module='field', bases=['Field'], attrs={
         'mask': 'int', 'bit_count': 'int', 'iam_first': 'bool', 'iam_last': 'bool',
         'shift': 'int', 'I': 'ref:Int', 'members': 'list'}, optional=['bit_count']),
@@ -44,4 +50,4 @@ CLASSES = {
 
 DISJOINT = [('Field', 'Packet'), ('Field', 'Fragments'), ('Packet', 'Fragments'),
             ('Int', 'Data'), ('Int', 'Bits'), ('Data', 'Bits'), ('Field', 'PacketError'),
-            ('Packet', 'PacketError')]
+            ('Packet', 'PacketError'), ('Field', 'UnaryExpr'), ('Field', 'BinaryExpr'), ('Field', 'NaryExpr')]
